@@ -23,7 +23,7 @@ from harness.gnpy_util import EX, TD, REPO, equipment
 from harness import documents_util as du
 
 ROOT = Path(__file__).resolve().parent.parent.parent
-QUICK_SAMPLE = {'topology': 240, 'equipment': 105, 'service': 180, 'spectrum': 40, 'simparams': 32}
+QUICK_SAMPLE = {'topology': 240, 'equipment': 105, 'service': 180, 'spectrum': 40, 'simparams': 48}
 MINI_TOPO = {'elements': [{'uid': 'trx A', 'type': 'Transceiver'}, {'uid': 'trx B', 'type': 'Transceiver'},
                           {'uid': 'fiber', 'type': 'Fiber', 'type_variety': 'SSMF',
                            'params': {'length': 50.0, 'loss_coef': 0.2, 'length_units': 'km', 'att_in': 0,
@@ -119,8 +119,13 @@ def observe(bench, doc, as_int, name):
     if back != doc:
         raise Machinery(f'harness: rendering then projecting {name} does not give the document back: {ex}\n'
                         f'{json.dumps(doc)[:600]}\n{json.dumps(back)[:600]}')
-    tr = dict(name=name, kind='abstract', doc=doc, exc=[], loads=[], lib=[], libok=False)
+    tr = dict(name=name, kind='abstract', doc=doc, exc=[], loads=[], lib=[], libok=False, accepted=True)
     det = dict(name=name, legacy_json=J, exceptions=[], loads=[])
+    try:
+        yang_to_legacy(copy.deepcopy(J))         # what load_gnpy_json does with the legacy file
+    except Exception as e:                       # noqa
+        tr['accepted'] = False
+        det['exceptions'].append(f'loaders refuse the legacy document: {type(e).__name__}: {str(e)[:300]}')
     Y = L = Y2 = None
     # the caller's own document object is handed to legacy_to_yang (as save_gnpy_json / an API user does) and looked at
     # again afterwards: converting must not change it
@@ -155,13 +160,14 @@ def observe(bench, doc, as_int, name):
                 tr.setdefault(fld, du.placeholder(kind, f2))
             break
     det['yang_json'], det['back_json'] = Y, L
-    tr['lr'] = tr['lw'] = tr['lq'] = du.placeholder(kind, 'legacy')
+    tr['lr'] = tr['lw'] = tr['lq'] = tr['lv'] = du.placeholder(kind, 'legacy')
     others = {}
     if Y is not None:
         from gnpy.tools.yang_convert_utils import dump_data
         # two more YANG files of the same document: keyed lists in another order; the file written by gnpy's writer
         for stage, make, field in (('reordered', lambda: du.reorder_keyed_lists(kind, Y), 'lr'),
                                    ('qualified', lambda: du.qualify_identities(kind, Y), 'lq'),
+                                   ('revectors', lambda: du.reorder_vector_lists(kind, Y), 'lv'),
                                    ('written', lambda: json.loads(dump_data(copy.deepcopy(Y))), 'lw')):
             try:
                 other = make()
@@ -176,8 +182,8 @@ def observe(bench, doc, as_int, name):
         tr['loads'].append(ld)
         det['loads'].append(rep)
         for role, other in others.items():
-            if role in ('reordered', 'qualified') and other == Y:
-                continue                         # this document has no keyed list with two entries: same file
+            if role == 'revectors' or (role in ('reordered', 'qualified') and other == Y):
+                continue                         # (the loaded vectors follow the listing order: documents only)                         # this document has no keyed list with two entries: same file
             # "legacy" side of these pairs = the converter's in-memory YANG output written as is
             ld, rep = bench.load_pair(kind, Y, other, role=role, first=y_side)
             tr['loads'].append(ld)
@@ -264,9 +270,9 @@ def classify(tr, det, stage, clause):
     kind = doc.get('kind', tr.get('dkind', '?'))
     what = ''
     if clause in ('RoundTrip', 'NoForeignKeysInLegacy', 'StructurePreserved', 'KeyedListOrderIrrelevant',
-                  'WrittenFileMeansTheSame', 'IdentitySpellingIrrelevant') and tr.get('l'):
+                  'WrittenFileMeansTheSame', 'IdentitySpellingIrrelevant', 'KeyedPairsStayTogether') and tr.get('l'):
         obs = tr[{'KeyedListOrderIrrelevant': 'lr', 'WrittenFileMeansTheSame': 'lw',
-                  'IdentitySpellingIrrelevant': 'lq'}.get(clause, 'l')]
+                  'IdentitySpellingIrrelevant': 'lq', 'KeyedPairsStayTogether': 'lv'}.get(clause, 'l')]
         ref = doc if obs is tr['l'] else dict(tr['l'], extra=[])
         comps = diff_components(ref, dict(obs, extra=[])) if obs.get('extra') != ['~no-document'] else []
         comps = sorted({re.sub(r'\[\]|#len', '', c).split('.')[1] + '.' + re.sub(r'\[\]|#len', '', c).split('.')[2]
@@ -501,6 +507,7 @@ def run(chk):
             if not chk.mutant and mine and okl * 4 < len(mine):
                 raise Machinery(f'only {okl} of {len(mine)} {k} documents are accepted by the loader: the frame of '
                                 f'the harness does not fit the library any more')
+        chk.cov['b2_documents_refused_by_the_loaders'] = sum(1 for t in traces if not t['accepted'])
         chk.cov['b2_document_runs'] = len(traces)
         chk.cov['b2_documents'] = len(ordered)
         chk.cov['b2_documents_by_kind'] = {k: sum(1 for t in traces if t['doc']['kind'] == k)
